@@ -17,6 +17,8 @@ pub mod c15;
 pub mod c16;
 pub mod c17;
 pub mod c18;
+pub mod c19;
+pub mod c20;
 
 pub fn run(prop: &str, ctx: &Ctx, r: &mut Report) -> bool {
 	match prop {
@@ -38,6 +40,8 @@ pub fn run(prop: &str, ctx: &Ctx, r: &mut Report) -> bool {
 		"C16" => c16::run(ctx, r),
 		"C17" => c17::run(ctx, r),
 		"C18" => c18::run(ctx, r),
+		"C19" | "PROGRAMS" => c19::run(ctx, r),
+		"C20W" => c20::run(ctx, r),
 		_ => return false,
 	}
 	true
